@@ -98,6 +98,8 @@ type specBias struct {
 	lrDirect      bool
 	bigClasses    int // chance out of 100 (0: a third)
 	topLoop       int // chance out of 100 of a grammar for long parses (gen.Config.TopLoop)
+	deepNest      int // chance out of 100 of a grammar for deeply nested parses (gen.Config.DeepNest)
+	uniNames      int // chance out of 100 of rule names outside ASCII
 }
 
 func drawSpec(r *rng, name string, b specBias) *genParser {
@@ -110,7 +112,11 @@ func drawSpec(r *rng, name string, b specBias) *genParser {
 			Unicode: r.intn(100) < b.unicode, AnyMatcher: r.chance(1, 2), Display: r.intn(100) < b.display,
 			NullableLoops: r.intn(100) < b.nullableLoops, LeftRec: lr, LeftRecDirect: b.lrDirect, LeftRecRunnable: true, StateBias: b.stateBias,
 			TopLoop:  !lr && b.topLoop > 0 && r.intn(100) < b.topLoop,
+			UniNames: b.uniNames > 0 && r.intn(100) < b.uniNames,
 			LongLits: r.chance(1, 3), BigClasses: r.intn(100) < map[bool]int{true: b.bigClasses, false: 33}[b.bigClasses > 0],
+		}
+		if !lr && !cfg.TopLoop && b.deepNest > 0 && r.intn(100) < b.deepNest {
+			cfg.DeepNest = true
 		}
 		g := gen.Generate(r2{r}, cfg)
 		if g == nil {
